@@ -9,6 +9,7 @@ LEVEL = "model_checking"
 
 KINDS = ["File", "ContentFile", "IFile", "FileSet", "ContentFileSet", "IFileSet", "Dir", "ContentDir", "IDir"]
 OPS = ["delete", "truncate", "rewrite", "touch", "add-member", "remove-member", "none"]
+NESTED_OPS = ["truncate-nested", "rewrite-nested", "touch-nested", "delete-nested"]  # Dir kinds only: a member inside a sub-directory
 COUNT = {"make": 0}
 
 
@@ -16,19 +17,31 @@ def tasks():
     import redun.file as rf
     from redun import task
 
-    def make(kind, path):
-        COUNT["make"] += 1
+    def create(kind, path):
         C = getattr(rf, kind)
         if "File" in kind and "Set" not in kind:
             f = C(path)
             f.write(f"output-{kind}")
             return f
         os.makedirs(path, exist_ok=True)
-        for m in ("a", "b"):
+        for m in ("a", "b") + (("sub/inner",) if "Dir" in kind else ()):
+            os.makedirs(os.path.dirname(os.path.join(path, m)), exist_ok=True)
             C.classes.File(os.path.join(path, m)).write(f"member-{m}")
         return C(path) if "Dir" in kind else C(os.path.join(path, "*"))
 
+    def make(kind, path):
+        COUNT["make"] += 1
+        return create(kind, path)
+
+    def use(f=None):
+        return f
+
     def main(kind, path, nested):
+        if nested in ("lazy-kw", "lazy-pos"):
+            # the producer is main itself: its cached result is a lazy call holding the external value (by keyword / by position)
+            COUNT["make"] += 1
+            v = create(kind, path)
+            return REG["use"](f=v) if nested == "lazy-kw" else REG["use"](v)
         v = REG["make"](kind, path)
         if nested == "list":
             return [v, 1]
@@ -38,6 +51,7 @@ def tasks():
 
     REG = {}
     REG["make"] = task(name="make", namespace="c04")(make)
+    REG["use"] = task(name="use", namespace="c04")(use)
     REG["main"] = task(name="main", namespace="c04")(main)
     return REG
 
@@ -52,6 +66,22 @@ def apply_op(kind, path, op, step):
     target = path if single else os.path.join(path, "a")
     t = 5000 + 10 * step
     if op == "none":
+        return True
+    if op.endswith("-nested"):
+        if "Dir" not in kind:
+            return False
+        inner = os.path.join(path, "sub", "inner")
+        if not os.path.exists(inner):
+            return False
+        if op == "truncate-nested":
+            open(inner, "w").close()
+        elif op == "rewrite-nested":
+            with open(inner, "w") as f:
+                f.write("external" + "y" * (step + 1))
+        elif op == "touch-nested":
+            os.utime(inner, (t, t))
+        else:
+            os.remove(inner)
         return True
     if op == "delete":
         if single:
@@ -93,6 +123,32 @@ def apply_op(kind, path, op, step):
     return False
 
 
+def fingerprint(kind, path):
+    """Reference notion of 'the external value changed', independent of redun's hashing code: the members with their size and
+    modification time (content for the Content* classes), taken straight from the filesystem."""
+    import glob
+
+    single = "File" in kind and "Set" not in kind
+    content = kind.startswith("Content")
+
+    def one(p):
+        if content:
+            with open(p, "rb") as f:
+                return f.read()
+        st = os.stat(p)
+        return (st.st_size, st.st_mtime_ns)
+
+    if single:
+        return ("missing",) if not os.path.exists(path) else ("file", one(path))
+    if "Dir" in kind:
+        if not os.path.isdir(path):
+            return ("missing",)
+        members = [os.path.join(r, f) for r, _d, fs in os.walk(path) for f in fs]
+    else:
+        members = [p for p in glob.glob(os.path.join(path, "*")) if os.path.isfile(p)]
+    return ("set", tuple(sorted((os.path.relpath(m, path), one(m)) for m in members)))
+
+
 def current_hash(kind, path):
     import redun.file as rf
 
@@ -112,7 +168,8 @@ def work(arg):
     reexec = 0
     immutable = kind.startswith("I")
     root = os.path.join(common.scratch_dir(), f"c04-{kind}-{os.getpid()}")
-    for rest in itertools.product(OPS, repeat=L - 1):
+    ops_here = OPS + (NESTED_OPS if "Dir" in kind else [])
+    for rest in itertools.product(ops_here, repeat=L - 1):
         hist = (first,) + rest
         shutil.rmtree(root, ignore_errors=True)
         os.makedirs(root)
@@ -137,6 +194,7 @@ def work(arg):
             seams.remove_db(db)
             continue
         recorded = unwrap(out[1], nested).hash
+        recorded_fp = fingerprint(kind, path)
         for i, op in enumerate(hist):
             case = {"kind": kind, "nested": nested, "history": list(hist[: i + 1])}
             if not apply_op(kind, path, op, i):
@@ -146,16 +204,22 @@ def work(arg):
             except Exception as e:  # noqa: BLE001
                 viol.append((f"{kind}:hashing-raises:{op}", case, f"{kind} after {hist[: i + 1]}: {e!r}"))
                 break
-            must_rerun = (not immutable) and cur != recorded
+            fp = fingerprint(kind, path)
+            must_rerun = (not immutable) and fp != recorded_fp  # safety side: decided by the harness's own view of the filesystem
+            may_replay = immutable or cur == recorded           # re-running more often than the fingerprint demands is conservative, not a violation
+            if must_rerun and cur == recorded:
+                viol.append((f"{kind}:hash-misses-external-change:{op}", case,
+                             f"{kind} after external {hist[: i + 1]}: members changed on disk (size/mtime/content fingerprint differs) but the value hash is still {cur[:8]}"))
+                break
             out, n = run(i + 1)
             if out[0] != "ok":
                 viol.append((f"{kind}:{nested}:run-raises-after:{op}", case, f"{kind}/{nested} after external {hist[: i + 1]}: run raised {out[1:]!r}"))
                 break
             if must_rerun and n == 0:
                 viol.append((f"{kind}:{nested}:stale-result-replayed-after:{op}", case,
-                             f"{kind}/{nested} after external {hist[: i + 1]}: recorded hash {recorded[:8]} != current {cur[:8]} but the task was not re-executed"))
+                             f"{kind}/{nested} after external {hist[: i + 1]}: the files changed on disk (recorded hash {recorded[:8]}, current {cur[:8]}) but the producing task was not re-executed"))
                 break
-            if not must_rerun and n > 0:
+            if may_replay and not must_rerun and n > 0:
                 viol.append((f"{kind}:{nested}:valid-result-not-replayed-after:{op}", case,
                              f"{kind}/{nested} after external {hist[: i + 1]}: value still valid (or immutable) but the task ran again"))
                 break
@@ -175,6 +239,7 @@ def work(arg):
                 if not (data.startswith("output-") or data.startswith("member-")):
                     viol.append((f"{kind}:{nested}:content-not-task-output-after:{op}", case, f"{kind} after {hist[: i + 1]}: file content {data!r}"))
             recorded = val.hash
+            recorded_fp = fingerprint(kind, path)
         seams.remove_db(db)
     shutil.rmtree(root, ignore_errors=True)
     best = {}
@@ -190,8 +255,8 @@ def run(ctx):
 
     seams.template_db()
     L = ctx.pick(2, 3)
-    nests = ctx.pick(["plain", "list"], ["plain", "list", "dict"])
-    items = [(k, n, op, L) for k in KINDS for n in nests for op in OPS if op != "none"]
+    nests = ctx.pick(["plain", "list", "lazy-kw"], ["plain", "list", "dict", "lazy-kw", "lazy-pos"])
+    items = [(k, n, op, L) for k in KINDS for n in nests for op in OPS + (NESTED_OPS if "Dir" in k else []) if op != "none"]
     res = ctx.pmap(work, ctx.rotate(items), chunksize=1)
     check_harness_errors(res)
     ctx.add_results(res)
@@ -199,10 +264,13 @@ def run(ctx):
     return {"coverage": {
         "states": sum(r["hists"] for r in res), "transitions": runs, "traces_validated_against_impl": runs,
         "re_executions_observed": sum(r["reexec"] for r in res), "exhaustive": True,
-        "rule": f"for each of 9 file value classes, returned bare or nested in a list (thorough: dict), every history of {L} external changes "
-        "(delete, truncate, rewrite with new size, touch with new logical mtime, add member, remove member, nothing; delete followed by the re-run "
+        "rule": f"for each of 9 file value classes, returned bare, nested in a list (thorough: dict), or held by keyword (thorough: also by position) in "
+        "a lazy call that is the producer's cached result, every history of {L} external changes "
+        "(delete, truncate, rewrite with new size, touch with new logical mtime, add member, remove member, the same on a member inside a "
+        "sub-directory for Dir classes, nothing; delete followed by the re-run "
         "covers 'recreate'), each followed by a run of main -> make(path) on the shared backend; oracle: the run never raises, make re-executes "
-        "iff the class is not immutable and the current hash differs from the recorded one, the returned value's hash is the current hash, "
+        "iff the class is not immutable and the filesystem fingerprint (members with size+mtime, or content; computed by the harness, not by "
+        "redun's hashing) differs from the one at recording time; the value hash changes iff the fingerprint does; the returned value's hash is the current hash, "
         "re-executed output is the task's output",
         "samples": [{"kind": i[0], "nested": i[1], "first_op": i[2]} for i in items[:3]],
     }, "assumptions": ["local filesystem; default completion schedule"]}
